@@ -19,6 +19,14 @@ class Rec(t.TypedDict):
     tag: int
 
 
+from vlib.fixtures import mod_a as _mod_a  # noqa: E402
+
+
+@dataclasses.dataclass
+class ExtOrder(_mod_a.Order):  # the inherited `item: "Item"` means mod_a.Item
+    note: "str" = ""
+
+
 def unmarshal_here(ref, x):
     """Issue a string reference from *this* module."""
     import typelib
